@@ -116,11 +116,32 @@ func Generate(seed uint64, id, family string) *sdl.Program {
 	switch family {
 	case FamWire:
 		p := genGraph(r, seed, id, family, wireKnobs(r))
-		// some holders come with a slice point that already holds one of its candidates
+		// some holders come with a slice point that already holds one of its candidates, or with
+		// fallback objects of the application in their single-valued points
 		for _, i := range p.Instances {
 			if r.p(0.1) {
 				i.Prefilled = true
 			}
+			if r.p(0.05) {
+				i.Fallback = true
+			}
+		}
+		// function-local types of one name, one of them Primary, and a holder that asks for
+		// "any component" - the unique Primary of the program wins
+		hasPrimary := false
+		for _, t := range p.Types {
+			hasPrimary = hasPrimary || t.Primary
+		}
+		if !hasPrimary && r.p(0.1) && len(p.Duplicates()) == 0 {
+			n := len(p.Instances)
+			for z := 0; z < r.n(2, 3); z++ {
+				t := &sdl.Type{Name: fmt.Sprintf("%sL%d", id, z), Local: true, Primary: z == 1}
+				p.Types = append(p.Types, t)
+				p.Instances = append(p.Instances, &sdl.Instance{ID: fmt.Sprintf("c%d", n+z), Type: t.Name, Alias: fmt.Sprintf("loc%d", n+z)})
+			}
+			h := &sdl.Type{Name: id + "TA", Points: []*sdl.Point{{Field: "F0", Kind: sdl.KAny, Sel: sdl.SelType, Optional: r.p(0.3)}}}
+			p.Types = append(p.Types, h)
+			p.Instances = append(p.Instances, &sdl.Instance{ID: fmt.Sprintf("c%d", len(p.Instances)), Type: h.Name})
 		}
 		// a definition registered programmatically while the container refreshes, and a lazy
 		// consumer that a lookup creates after Run: it must find the late definition
@@ -242,6 +263,9 @@ func Generate(seed uint64, id, family string) *sdl.Program {
 			if r.p(0.3) {
 				i.Preset = true
 			}
+			if r.p(0.15) {
+				i.Fallback = true
+			}
 		}
 		// requested names written as placeholders (with a default), next to an optional
 		// configuration field whose key is absent
@@ -297,7 +321,7 @@ func substKnobs(r rng) Knobs {
 	k.PLazy = 0.1
 	k.PInitLookup = 0.3
 	k.PInit = 0.8
-	k.PProcComp, k.PZero, k.PAlt = 0, 0, 0
+	k.PProcComp, k.PZero, k.PAlt = 0.08, 0, 0 // (components that are post-processors may sit on a substituted cycle)
 	return k
 }
 
